@@ -21,6 +21,10 @@ Record gen_prefix := {
   gp_used : bool;              (* consumed by a collections constructor of the module *)
   gp_bytes : list Z }.
 
+(* a size-sensitive construct (paging helper, limit, slice, bounded iteration) found by the
+   translator in the call graph of a module's ExportGenesis / InitGenesis *)
+Record gen_site := { gs_module : string; gs_func : string; gs_kind : string; gs_detail : string }.
+
 (* ------------------------------------------------------------ stores *)
 Definition store := list (Z * Z).          (* (key, value), ascending keys *)
 Definition mstate := list store.           (* one store per field of the module *)
@@ -221,6 +225,16 @@ Definition indexes_ok (m : modspec) : bool :=
   forallb (fun f => match role_of m f with
                     | RIndexOf c => match role_of m c with RColl => true | _ => false end
                     | _ => true end) (seq 0 (nfields m)).
+
+(* size-sensitive constructs in the genesis call graphs that have been read and found harmless
+   (module, function, kind, detail).  ExportGenesis must list whole collections: anything that
+   pages, limits, slices or bounds an iteration has to be justified here before the coverage
+   theorem holds again. *)
+Definition reviewed_genesis_sites : list (string * string * string * string) := [].
+Definition site_reviewed (g : gen_site) : bool :=
+  existsb (fun r => match r with (m, f, k, d) =>
+     String.eqb m (gs_module g) && String.eqb f (gs_func g) && String.eqb k (gs_kind g) && String.eqb d (gs_detail g) end)
+    reviewed_genesis_sites.
 
 Definition coverage (gen : list gen_prefix) (raw_modules unknown : list string) : bool :=
   forallb entry_modelled gen &&
